@@ -137,6 +137,8 @@ Check(r, idx) ==
     \o (IF r.diag = "" /\ r.hung = 0 /\ pendingCalls = {} /\ r.inflight = 0 /\ (~\E x \in exits : x.err = "panic") /\ Cardinality(enters) > 0
            /\ Cardinality({x.run : x \in enters}) = Cardinality({x.run : x \in exits}) /\ r.loadsrecorded # r.loaderruns
         THEN <<F(idx, "C20.loads_recorded_differ_from_loader_runs", <<r.loadsrecorded, r.loaderruns>>)>> ELSE <<>>)
+    \* C10: the loader is invoked only for the missing keys - never with nothing to load (a BulkGet whose misses are all in flight elsewhere waits)
+    \o (IF r.emptybulk > 0 THEN <<F(idx, "C10.loader_invoked_without_keys", r.emptybulk)>> ELSE <<>>)
     \o (IF r.diag # "" /\ pendingCalls # {} THEN <<F(idx, "C08.hang", <<r.diag, {c.g : c \in pendingCalls}>>)>> ELSE <<>>)
     \o (IF r.hung = 1 THEN <<F(idx, "C08.later_get_hangs", r.inflight)>> ELSE <<>>)
     \o (IF \E x \in rets : x.err = "timeout" THEN <<F(idx, "C08.refresh_result_missing", {x \in rets : x.err = "timeout"})>> ELSE <<>>)
